@@ -68,7 +68,11 @@ func runC09(c *Ctx) {
 		}
 	}
 	if nExport < 2 {
-		c.bad("R09e", "TxToScriptData:vars-export", fn.Pos(), fmt.Sprintf("expected both variable maps to be exported to vars, found %d exports: some generated variables have no value", nExport))
+		if nExport == 0 {
+			c.undecided("R09e", "TxToScriptData:vars-export", fn.Pos(), "no loop exporting a variable map into vars found in TxToScriptData: the way generated variables receive their values moved out of the shape this rule decides")
+		} else {
+			c.bad("R09e", "TxToScriptData:vars-export", fn.Pos(), fmt.Sprintf("expected both variable maps to be exported to vars, found %d exports: some generated variables have no value", nExport))
+		}
 	}
 
 	// ---- R09c: pass-through
